@@ -932,11 +932,21 @@ func (y *Identity) DerivedDirect() []*Identity {
 }
 
 func FindIdentity(candidates []*Identity, target string) *Identity {
+	return findIdentity(candidates, target, make(map[*Identity]struct{}))
+}
+
+// identities with several bases form a graph with many paths to one identity, each identity
+// is looked at once
+func findIdentity(candidates []*Identity, target string, seen map[*Identity]struct{}) *Identity {
 	for _, candidate := range candidates {
+		if _, visited := seen[candidate]; visited {
+			continue
+		}
+		seen[candidate] = struct{}{}
 		if candidate.ident == target {
 			return candidate
 		}
-		if derived := FindIdentity(candidate.derived, target); derived != nil {
+		if derived := findIdentity(candidate.derived, target, seen); derived != nil {
 			return derived
 		}
 	}
